@@ -439,6 +439,39 @@ bool brute_nnls(const std::vector<double> &A, const std::vector<double> &b, int 
 // ---------------------------------------------------------------- problem generation (a pure function of the descriptor)
 struct NnlsProblem { int n = 0; std::vector<double> A, b; int m = 0; std::vector<double> M, y; /* least-squares form */ };
 
+// Does the plain full block exchange (Portugal/Judice/Vicente without its safeguard: start from the empty
+// passive set, solve on it, move *every* infeasible variable to the other set) cycle on this small system?
+bool full_exchange_cycles(const std::vector<double> &A, const std::vector<double> &b, int n) {
+	unsigned seen[64] = {0};
+	int nseen = 0;
+	unsigned F = 0;
+	for (int it = 0; it < 48; it++) {
+		for (int k = 0; k < nseen; k++) if (seen[k] == F) return true;
+		if (nseen < 64) seen[nseen++] = F;
+		// x_F = A_FF^-1 b_F by Gaussian elimination (the systems are tiny and positive definite)
+		int idx[8], m = 0;
+		for (int i = 0; i < n; i++) if (F >> i & 1) idx[m++] = i;
+		double T[8][9], x[8] = {0};
+		for (int i = 0; i < m; i++) { for (int j = 0; j < m; j++) T[i][j] = A[(size_t)idx[i] * n + idx[j]]; T[i][m] = b[(size_t)idx[i]]; }
+		for (int c = 0; c < m; c++) {
+			int piv = c;
+			for (int r2 = c + 1; r2 < m; r2++) if (std::fabs(T[r2][c]) > std::fabs(T[piv][c])) piv = r2;
+			if (std::fabs(T[piv][c]) < 1e-300) return false;
+			if (piv != c) for (int j = 0; j <= m; j++) std::swap(T[piv][j], T[c][j]);
+			for (int r2 = c + 1; r2 < m; r2++) { double f = T[r2][c] / T[c][c]; for (int j = c; j <= m; j++) T[r2][j] -= f * T[c][j]; }
+		}
+		for (int i = m - 1; i >= 0; i--) { double v = T[i][m]; for (int j = i + 1; j < m; j++) v -= T[i][j] * x[idx[j]]; x[idx[i]] = v / T[i][i]; }
+		unsigned inf = 0;
+		for (int i = 0; i < n; i++) {
+			if (F >> i & 1) { if (x[i] < -1e-9) inf |= 1u << i; }
+			else { double y = -b[(size_t)i]; for (int j = 0; j < n; j++) y += A[(size_t)i * n + j] * x[j]; if (y < -1e-9) inf |= 1u << i; }
+		}
+		if (!inf) return false;
+		F ^= inf;
+	}
+	return true;
+}
+
 NnlsProblem make_nnls(const Json &d) {
 	NnlsProblem p;
 	Rng r((uint64_t)strtoull(d.gets("pseed", "1").c_str(), nullptr, 16), "nnls");
@@ -476,6 +509,35 @@ NnlsProblem make_nnls(const Json &d) {
 			double off = 0;
 			for (int j = 2; j < n; j++) if (j != i) off += std::fabs(p.A[(size_t)i * n + j]) + 2 * std::fabs(acol[(size_t)i] * acol[(size_t)j]);
 			p.A[(size_t)i * n + i] = 2 * acol[(size_t)i] * acol[(size_t)i] + off + (double)r.range(1, 8) / 64.0;
+		}
+		return p;
+	}
+	if (kind == "exchange_cycles") {
+		// Block-diagonal system of n/3 independent 3x3 positive-definite blocks on each of which the plain full
+		// block exchange cycles (found by seeded search: about one random block in 3000 does), each copy with
+		// its own positive scaling and the variables numbered contiguously or interleaved. The hard instances
+		// of the block-pivoting solvers: their safeguard (count of infeasibles, Murty's single-pivot rule) has
+		// to break several cycles at once. n > 12: judged through the KKT residual.
+		int nb = n / 3; if (nb < 1) nb = 1;
+		n = 3 * nb; p.n = n; p.m = 0;
+		p.A.assign((size_t)n * n, 0); p.b.assign((size_t)n, 0);
+		bool interleave = r.chance(0.5);
+		for (int k = 0; k < nb; k++) {
+			std::vector<double> Ab(9), bb(3);
+			for (int tries = 0; tries < 200000; tries++) {
+				double M3[9];
+				for (double &v : M3) v = r.normal();
+				for (int i = 0; i < 3; i++) for (int j = 0; j < 3; j++) { double sacc = i == j ? 1e-3 : 0; for (int q = 0; q < 3; q++) sacc += M3[q * 3 + i] * M3[q * 3 + j]; Ab[(size_t)i * 3 + j] = sacc; }
+				for (double &v : bb) v = r.normal();
+				if (full_exchange_cycles(Ab, bb, 3)) break;
+			}
+			double sc[3];
+			for (double &v : sc) v = std::pow(2.0, (double)r.range(-2, 2));
+			for (int i = 0; i < 3; i++) {
+				int gi = interleave ? i * nb + k : k * 3 + i;
+				p.b[(size_t)gi] = sc[i] * bb[(size_t)i];
+				for (int j = 0; j < 3; j++) { int gj = interleave ? j * nb + k : k * 3 + j; p.A[(size_t)gi * n + gj] = sc[i] * sc[j] * Ab[(size_t)i * 3 + j]; }
+			}
 		}
 		return p;
 	}
@@ -870,13 +932,18 @@ struct SchedHarness : Harness {
 			// row up/down-dates for several rows at once (checked through the KKT residual)
 			bool big = gen.chance(0.05);
 			if (big) { kind = "random"; n = 60 + (int)gen.below(61); workers = 1 + (int)gen.below(2); }
+			{
+				// systems made of blocks on which the plain full exchange cycles (own stream)
+				Rng xc(runseed, "exchange_cycles");
+				if (!big && xc.chance(0.07)) { kind = "exchange_cycles"; n = 3 * (xc.chance(0.3) ? 1 + (int)xc.below(4) : 5 + (int)xc.below(8)); }
+			}
 			prob["n"] = Json(n);
 			prob["kind"] = Json(kind);
 			if (depth == "plain") {
 				static const char *sv[] = {"block", "updown", "lh_normal", "lh_ls"};
 				std::string s = sv[gen.below(4)];
 				if (big) s = gen.chance(0.5) ? "updown" : "block";
-				if (s == "lh_ls" && (kind == "integer" || kind == "degenerate" || kind == "tie2")) s = "lh_normal";
+				if (s == "lh_ls" && (kind == "integer" || kind == "degenerate" || kind == "tie2" || kind == "exchange_cycles")) s = "lh_normal";
 				prob["solver"] = Json(s);
 				static const double tols[] = {0, 0, 1e-10};
 				prob["lh_tol"] = Json(tols[gen.below(3)]);
@@ -1101,8 +1168,12 @@ struct SchedHarness : Harness {
 		std::string capped;
 		// BLOCK3 stops after 120 outer iterations, each of which updates the factor at least once
 		if (solver == "block3") capped = G.n_modify_factor >= 120 ? "|at_iteration_cap" : "|converged";
-		if (solver == "updown") capped = G.n_modify_factor >= 3 * p.n ? "|at_iteration_cap" : "|converged";
-		if (solver == "block") capped = G.n_cholesky_solve >= 3 * p.n ? "|at_iteration_cap" : "|converged";
+		// the two block-pivoting solvers give up silently after 3n iterations (known finding F-C11-blockpivot-itercap,
+		// listed per size class and system family so that a cap hit anywhere else is still reported)
+		std::string size_class_s = std::string(p.n <= 4 ? "|n<=4|" : "|n>4|") + prob.gets("kind");
+		const char *size_class = size_class_s.c_str();
+		if (solver == "updown") capped = G.n_modify_factor >= 3 * p.n ? std::string("|at_iteration_cap") + size_class : "|converged";
+		if (solver == "block") capped = G.n_cholesky_solve >= 3 * p.n ? std::string("|at_iteration_cap") + size_class : "|converged";
 		if (solver == "lh_normal" || solver == "lh_ls") capped = (prob.geti("lh_maxiter", 0) > 0 && G.n_qr >= prob.geti("lh_maxiter", 0)) ? "|at_iteration_cap" : "|converged";
 		if (!capped.empty() && capped != "|converged") ctx.count("probe:solver_stopped_at_iteration_cap");
 		if (!v.ok) ctx.violate("C11|" + v.what + "|" + solver + capped, v.detail + " (kind=" + prob.gets("kind") + ", n=" + std::to_string(p.n) + ")");
